@@ -55,13 +55,39 @@ func openFresh(c *sim.Ctx, path string, cache int) *sqlittle.DB {
 	return d
 }
 
-// accepted reports whether sqlittle accepts the table's definition.
+// accepted reports whether sqlittle accepts the table's definition. A Schema()
+// failure counts as "definition not interpreted" only when the error is one of
+// the parser's or the schema builder's own rejections; anything else on a
+// database SQLite just wrote (I/O, "corrupted", EOF ...) is returned as bad.
 func accepted(d *sqlittle.DB, table string) (bool, error) {
 	r := ops.Run(d, ops.Op{Kind: "schema", Table: table, Lock: true}, nil)
 	if r.Panic != nil {
 		return false, fmt.Errorf("panic: %v", r.Panic)
 	}
 	return r.Err == nil, r.Err
+}
+
+func isDefinitionRejection(err error) bool {
+	if err == nil {
+		return false
+	}
+	m := err.Error()
+	for _, k := range []string{"syntax error", "unsupported number", "no terminating", "unexpected char", "unsupported CREATE TABLE", "invalid object definition", "no CREATE TABLE attached"} {
+		if strings.Contains(m, k) {
+			return true
+		}
+	}
+	return false
+}
+
+// acceptedStrict is accepted() plus the requirement that a refusal is about the
+// definition: reading the schema of a well-formed database must not fail otherwise.
+func acceptedStrict(c *sim.Ctx, d *sqlittle.DB, table string) bool {
+	acc, err := accepted(d, table)
+	if !acc && !isDefinitionRejection(err) {
+		c.Fail("schema-unreadable", "schema-read-error", fmt.Sprintf("Schema(%s) failed on a database SQLite just committed, and not because of the definition: %v", table, err), map[string]interface{}{"table": table})
+	}
+	return acc
 }
 
 // project computes what SQLite returns for `SELECT cols FROM t` (in table
